@@ -731,7 +731,9 @@ func (n *vNode) unblock() {
 	}
 }
 
-func isBootstrap(l *raft.Log) bool { return l != nil && l.Index == 1 && l.Type == raft.LogConfiguration }
+func isBootstrap(l *raft.Log) bool {
+	return l != nil && l.Index == 1 && l.Type == raft.LogConfiguration
+}
 
 // diffClass names how R differs from L ("" = equal, "shift" = only Data/Extensions boundary moved)
 func diffClass(L, R []*raft.Log) string {
